@@ -50,6 +50,15 @@ class C09(PureCheck):
                     for e in range(s, n + 3):
                         yield {"op": "splice", "f": f, "new": new, "s": s, "e": e, "en": 0}
                 yield {"op": "append", "f": f, "new": new}
+        # values with many runs (a long syntax-highlighted line): splices at the start, around a middle boundary, at the end
+        for nruns in (31, 32, 33, 40, 70):
+            f = [[[97 + (j % 3)] * (1 + j % 2), list(fmtlib.ATTS3[j % 3])] for j in range(nruns)]
+            n = vlen(f)
+            for new in (S([120]), F([[[120, 121], fmtlib.RED]]), S([])):
+                for (a, b) in ((0, 0), (0, 1), (0, 3), (1, 1), (n // 2, n // 2 + 2), (n - 1, n), (n, n), (0, n)):
+                    yield {"op": "splice", "f": f, "new": new, "s": a, "e": b, "en": 0}
+                yield {"op": "splice", "f": f, "new": new, "s": 0, "e": 0, "en": 1}
+                yield {"op": "append", "f": f, "new": new}
         # repainting: the new text equals the text it replaces, only the formatting differs (or is dropped)
         under = [0, 0, 0, 0, 0, 2, 0, 0]
         for f in pool:
